@@ -64,6 +64,10 @@ type c12Method struct {
 	Query   []c12Param `json:"query,omitempty"`
 	Headers []c12Param `json:"headers,omitempty"`
 	Body    string     `json:"body,omitempty"` // tuple type name
+	// BodyTags are further patterns written next to ~body ("[~json, ~body]"): negative positions come before
+	// ~body, others after it. They carry no meaning for the exporters; the parameter stays the body.
+	BodyTagsBefore []string `json:"body_tags_before,omitempty"`
+	BodyTagsAfter  []string `json:"body_tags_after,omitempty"`
 	Rets    []c12Ret   `json:"rets"`
 }
 
@@ -232,6 +236,11 @@ func c12GenApp(t *rapid.T, format string) c12App {
 			}
 			if bodies && m != "GET" && m != "DELETE" && rapid.Bool().Draw(t, "body") {
 				me.Body = pick(t, tuples, "bodytype")
+				if rapid.Bool().Draw(t, "bodytags") {
+					tags := c12Distinct(t, []string{"json", "payload", "validated"}, rapid.IntRange(1, 2).Draw(t, "nbodytags"), "bodytagnames")
+					k := rapid.IntRange(0, len(tags)).Draw(t, "bodytagsbefore")
+					me.BodyTagsBefore, me.BodyTagsAfter = tags[:k], tags[k:]
+				}
 			}
 			nr := rapid.IntRange(1, 3).Draw(t, "nrets")
 			codes := c12Distinct(t, c12Codes, nr, "codes")
@@ -280,7 +289,15 @@ func c12MethodLine(a c12App, me c12Method) string {
 	l := me.Method
 	var ps []string
 	if me.Body != "" {
-		ps = append(ps, "body <: "+me.Body+" [~body]")
+		tags := ""
+		for _, tg := range me.BodyTagsBefore {
+			tags += "~" + tg + ", "
+		}
+		tags += "~body"
+		for _, tg := range me.BodyTagsAfter {
+			tags += ", ~" + tg
+		}
+		ps = append(ps, "body <: "+me.Body+" ["+tags+"]")
 	}
 	for _, h := range me.Headers {
 		k := h.Kind
@@ -507,6 +524,9 @@ func c12StatsOf(a c12App) c12Stats {
 			if me.Body != "" {
 				np++
 				cl["body_param"] = true
+				if len(me.BodyTagsBefore)+len(me.BodyTagsAfter) > 0 {
+					cl["body_param_with_further_tags"] = true
+				}
 			}
 			if np >= 2 {
 				richEp = true
